@@ -473,12 +473,19 @@ func PromoteOptionsToConstructor(selector Selector, optionNames []string) Rewrit
 					continue
 				}
 
-				// TODO: do it for every argument/assignment?
-				arg := opt.Args[0].DeepCopy()
-				arg.Type.Nullable = false
+				// every argument and every assignment of the option is
+				// promoted: assignments can rely on more than the first argument.
+				// Copies are used, to ensure that later changes to the option
+				// do not alter the constructor.
+				for _, optArg := range opt.Args {
+					arg := optArg.DeepCopy()
+					arg.Type.Nullable = false
 
-				builders[i].Constructor.Args = append(builders[i].Constructor.Args, arg)
-				builders[i].Constructor.Assignments = append(builders[i].Constructor.Assignments, opt.Assignments[0])
+					builders[i].Constructor.Args = append(builders[i].Constructor.Args, arg)
+				}
+				for _, assignment := range opt.Assignments {
+					builders[i].Constructor.Assignments = append(builders[i].Constructor.Assignments, assignment.DeepCopy())
+				}
 
 				builders[i].AddToVeneerTrail(fmt.Sprintf("PromoteOptionsToConstructor[%s]", optName))
 			}
